@@ -155,7 +155,7 @@ CHECKS = {
               "execution ARNs that parse back to their parts, rebuild to the same string and survive the split-at-last-colon derivation; both front ends must agree on acceptance and on the 80/81 boundary. "
               "For accepted names the engine is run (STANDARD, EXPRESS, crash+restart, expiry back stop) and every place that reports identifiers must agree."),
         design_ref="DESIGN.md section 5 C17",
-        note="Control characters are outside the stated alphabet. " + TRUST,
+        note="Control characters are represented by line feed, tab and DEL."  + TRUST,
     ),
     "C08": dict(
         category="exploration",
